@@ -44,6 +44,13 @@ DIRECTED = [
 ]
 
 
+# stack inversion (open finding): Y nests and waits, X waits on Y's set / gets the future whose body waits
+INVERSION = [
+    'L,L,L;1@1:s3,w3|2@2:w1|3@3:;s1,s2^b1,w2^b2,w1',
+    'L,L;1@0:s3,w2|2@1:g1|3@2:;a1,s2^b1,w1^b2,g1',
+]
+
+
 class Builder:
     def __init__(self):
         self.sets = []
@@ -100,11 +107,17 @@ def gen_program(rng, nw3_ok):
             main.append('s%d' % b.task(sb, forkjoin(1) if rng.random() < 0.5 else []))
         late_waits += ['w%d' % sb, 'w%d' % sa]
     if shape in ('future', 'mixed'):
-        f1 = b.task(0, forkjoin(1) if rng.random() < 0.4 else [])
+        # a future that a TASK gets has a body that does not wait (else: stack inversion, the open finding);
+        # a future whose body nests is only gotten by main
+        f1 = b.task(0, [])
         main.append('a%d' % f1)
         sx = b.newset(rng.choice('HL'))
         main.append('s%d' % b.task(sx, ['g%d' % f1] + (forkjoin(1) if rng.random() < 0.3 else [])))
         late_waits += ['w%d' % sx, 'g%d' % f1]
+        if rng.random() < 0.5:
+            f2 = b.task(0, forkjoin(1))
+            main.append('a%d' % f2)
+            late_waits.append('g%d' % f2)
     if shape in ('forkjoin', 'mixed') or not main:
         main += forkjoin(2)
     main += late_waits
@@ -190,8 +203,9 @@ def run(ctx):
 
     # E1 ------------------------------------------------------------------------------------------
     vac = ('BulkPushSteal', 'Finished')
-    ctx.check_model(SPEC, 'MCNested.tla', 'MC_cover.cfg', WHAT, workers=4, extra=nogen, vacuity_exempt=VAC_SMALL,
-                    label='cross-wait program, 1 worker, repaired waiters: no starved state, <>AllDone under WF')
+    if thorough:
+        ctx.check_model(SPEC, 'MCNested.tla', 'MC_cover.cfg', WHAT, workers=4, extra=nogen, vacuity_exempt=VAC_SMALL,
+                        label='cross-wait program, 1 worker, repaired waiters: no starved state, <>AllDone under WF')
     ctx.check_model(SPEC, 'MCNested.tla', 'MC_thorough.cfg' if thorough else 'MC_quick.cfg', WHAT, workers=4, extra=nogen,
                     vacuity_exempt=vac, timeout=3000,
                     label='program library x pools 0..%d, repaired waiters: no starved state%s' % (
@@ -200,27 +214,48 @@ def run(ctx):
                   label='negative control: original waiters (central queue + locality rings only) must starve', count=False)
     if neg.violation != 'Invariant NoStarvation':
         raise vlib.ToolError('negative control did not fail: the model with the original waiters no longer starves (%s)' % neg.violation)
-    ctx.sample({'negative_control_counterexample': neg.counterexample()[:1500]})
+    ctx.sample({'negative_control_counterexample': neg.counterexample()[:1200]})
     if thorough:
         ctx.check_model(SPEC, 'MCNested.tla', 'MC_nofix_forkjoin.cfg', WHAT, workers=4, extra=nogen, vacuity_exempt=vac,
                         timeout=3000, label='own-children fork-join / futures / loops terminate even with the original waiters')
 
     # E4 + E3 -------------------------------------------------------------------------------------
     rng = random.Random(ctx.seed)
-    lib = ['NW=0,1,2%s %s' % (',3' if thorough else '', p) for p in LIBRARY]
-    tr, info = run_batch(ctx, exe, lib, 'library', 9 if thorough else 3, ctx.seed)
-    ctx.sample_trace(tr, 10, skip=30)
-    # directed: many short executions of the starvation's schedule class
-    run_batch(ctx, exe, DIRECTED, 'directed', 60 if thorough else 24, ctx.seed + 1)
+    progs = ['R=%d NW=0,1,2%s %s' % (6 if thorough else 2, ',3' if thorough else '', p) for p in LIBRARY]
+    # directed: many short executions of the steal-ring starvation's schedule class
+    progs += ['R=%d %s' % (60 if thorough else 12, p) for p in DIRECTED]
     gen = []
     for i in range(40 if thorough else 10):
         p = gen_program(rng, True)
         # a waiting loop over 3 items needs at least 2 pool threads to get one item per chunk (or 0: inline)
         three = any(op.startswith('p') and op.count('.') >= 3 for part in p.split(';')[1:] for t in part.split('|')
                     for op in t.split(':')[-1].split(','))
-        gen.append('NW=%s %s' % ('0,2' if three else rng.choice(['0,1,2', '1,2', '1,2,3' if thorough else '1,2']), p))
-    tr, info = run_batch(ctx, exe, gen, 'random', 6 if thorough else 3, ctx.seed + 2)
+        gen.append('R=%d NW=%s %s' % (6 if thorough else 3, '0,2' if three else rng.choice(['0,1,2', '1,2', '1,2,3' if thorough else '1,2']), p))
+    tr, info = run_batch(ctx, exe, progs + gen, 'programs', 3, ctx.seed)
+    ctx.sample_trace(tr, 10, skip=30)
     ctx.sample({'random_programs': gen[:4], 'directed': DIRECTED[:2]})
+
+    # the open finding (stack inversion): model and real code, reported under its own signature ------
+    inv = ctx.tlc(SPEC, 'MCNested.tla', 'MC_inversion.cfg', workers=4, extra=nogen, count=False,
+                  label='stack inversion programs (a waiter steals a task that blocks on work suspended beneath it)')
+    if inv.violation == 'Invariant NoStarvation':
+        hit = 0
+        for attempt in (0, 1):
+            pf = os.path.join(ctx.work, 'inversion.progs')
+            open(pf, 'w').write('\n'.join(INVERSION) + '\n')
+            raw = os.path.join(ctx.work, 'inversion_%d.raw.ndjson' % attempt)
+            tot, out = ctx.driver(exe, ['--out', raw, '--progs', pf, '--nw', '1', '--runs', 4, '--seed', ctx.seed, '--pct', 0,
+                                        '--maxsteps', 20000], WHAT, label='inversion', allow_incomplete=True, report=False)
+            if tot and tot.get('executions', 0) > tot.get('completed', 0) + tot.get('deadlocks', 0):
+                hit += 1
+        if hit == 2:
+            path = ctx.save_replay('%s-inversion.txt' % ctx.prop,
+                                   'programs %s on a 1-thread pool never complete (step bound 20000, repeated)\n\nmodel:\n%s\n\nlast steps:\n%s' % (
+                                       INVERSION, inv.counterexample()[:6000], ctx._trace_context(raw, sum(1 for _ in open(raw)))[-3000:]))
+            ctx.violation('inversion:stack', WHAT + ': stack inversion - a thread inside wait() steals a task that waits on work '
+                          'suspended beneath it on the same stack; the acyclic program never completes', path)
+    elif inv.violation:
+        raise vlib.ToolError('MC_inversion: unexpected %s' % inv.violation)
     ctx.assumptions += [
         'the pool is modelled by its tiers (central queue, locality rings, steal rings) and by who polls which tier; '
         'FIFO order inside a tier, the lossy central-queue hint and the spin counters are abstracted (failed polls are stutter steps)',
@@ -230,6 +265,8 @@ def run(ctx):
         'one waiter per set at a time; load-based inline execution is allowed nondeterministically',
         'spin constants compiled small (pool_common.TUNE), steal-ring sharing 2, wake group size 2; sequentially consistent interleavings',
         'a waiting parallel_for is run with at most (threads + 1) items so that every chunk is one item',
+        'random programs exclude the stack-inversion shapes (a task waiting on a set whose tasks wait themselves; a task getting a '
+        'future whose body waits): those are the open finding, probed separately (MC_inversion.cfg + directed runs)',
     ]
 
 
